@@ -163,6 +163,40 @@ def run(rep, pdb, tier):
         eff = effective_guards(pdb, f)
         ok = ok and NE(ln(P(0)), lin_add(ln(P(1)), num(-1))) in eff and NE(ln(P(2)), lin_add(ln(P(1)), num(-1))) in eff
         rep.add("invariant/%s" % name, rule, ok, f["body"], "", where=loc(f["body"]))
+    f = pdb.fn("%s::resize" % T)
+    rule = "resize(n) re-establishes the invariant: sub, sup get n-1 zeros, main gets n zeros, n is recorded"
+    if f is None:
+        rep.missing("invariant/resize", rule, "not found")
+    else:
+        c2 = Ctx.for_fn(pdb, f)
+        asg = {e.target: e.value for e in effects(pdb, c2) if e.kind == "assign"}
+
+        def vnew(t, ln):
+            return t is not None and t[0] == "call" and str(t[1]).endswith("Vector<T>::new") and t[2] == ln and is_zero_term(t[3])
+        ok = vnew(asg.get(SUB), lin_add(P(1), num(-1))) and vnew(asg.get(SUP), lin_add(P(1), num(-1))) and vnew(asg.get(MAIN), P(1)) and asg.get(N) == P(1)
+        rep.add("invariant/resize", rule, ok, f["body"], "", where=loc(f["body"]))
+    f = pdb.fn("%s::transpose" % T)
+    rule = "transpose returns a clone of self transposed in place"
+    if f is None:
+        rep.missing("transpose/by-value", rule, "not found")
+    else:
+        c2 = Ctx.for_fn(pdb, f)
+        calls = [n_ for n_ in walk(f["body"]) if n_.get("k") == "MethodCall" and callee_path(n_) == "%s::transpose_in_place" % T]
+        tail = f["body"].get("expr")
+        ok = len(calls) == 1 and tail is not None
+        if ok:
+            recv = c2.term(calls[0]["recv"])
+            ok = recv[0] == "var" and c2.def_term(recv) == P(0) and c2.term(tail) == recv
+        rep.add("transpose/by-value", rule, ok, f["body"], "", where=loc(f["body"]))
+    f = pdb.fn("tridiagonal::Tridiagonal<complex::Complex<T>>::conj")
+    rule = "conj conjugates each of the three diagonals, pairing like with like, and keeps n"
+    if f is None:
+        rep.missing("operators/conj", rule, "not found")
+    else:
+        summ = ctor_summary(pdb, f)
+        cj = "vector::Vector<complex::Complex<T>>::conj"
+        ok = summ is not None and summ.get("n") == N and all(summ.get(d) == ("call", cj, F(P(0), d)) for d in ("sub", "main", "sup"))
+        rep.add("operators/conj", rule, ok, f["body"], "", where=loc(f["body"]))
     # ---- refuse (D)
     sv = pdb.fn("%s::solve" % T)
     if sv is None:
@@ -328,7 +362,7 @@ def run(rep, pdb, tier):
     rep.floor("convert/", 8)
     rep.floor("stencil/", 8)
     rep.floor("bounds/", 30)
-    rep.floor("invariant/", 4)
+    rep.floor("invariant/", 5)
     rep.floor("refuse/", 2)
     rep.floor("operators/", 10)
     rep.assumptions += ["the property's domain n >= 1 (Tridiagonal::new(0) underflows and is outside it)",
